@@ -50,6 +50,7 @@ class Tr:
         self.src, self.rel, self.env = src, rel, dict(env)
         self.parsed_name = parsed_name
         self.query_name = query_name
+        self.parser = None
 
     def const(self, name):
         """module-level or imported constant -> python value"""
@@ -223,11 +224,12 @@ def uri_params(src):
                     continue
                 raise ExtractError('UriConnection.__init__: first statement is not uri = compatibility.patch_uri(uri)')
             if stage == 1:
-                if ast.unparse(v) in ('urlparse.urlparse(uri)',):
+                if ast.unparse(v) in ('urlparse.urlparse(uri)', 'urlparse.urlsplit(uri)'):
                     tr.parsed_name = name
+                    tr.parser = ast.unparse(v.func).split('.')[-1]
                     stage = 2
                     continue
-                raise ExtractError('UriConnection.__init__: second statement is not <x> = urlparse.urlparse(uri)')
+                raise ExtractError('UriConnection.__init__: second statement is not <x> = urlparse.urlparse(uri) / urlsplit(uri)')
             if isinstance(v, ast.Call) and dotted(v.func) == 'self._parse_uri_options':
                 args = [ast.unparse(a) for a in v.args]
                 if v.keywords or len(args) != 3 or args[0] != tr.parsed_name or args[2] != 'ssl_options':
@@ -295,6 +297,7 @@ def uri_params(src):
             out[key] = kw[src_key] if src_key in kw else ctr.tr(v.args[1])
         else:
             raise ExtractError('Connection.__init__: unsupported parameters[%r] = %s' % (key, ast.unparse(v)))
+    out['_parser'] = tr.parser
     return out
 
 
@@ -378,6 +381,9 @@ def gen_uri(src, consts):
            '/-- compatibility.patch_uri: ordered branches `if uri[:uri.find(\':\')] == guard: uri = uri.replace(old, new, 1)` -/',
            'def patchTable : List (Str × Str × Str) := [%s]' % ', '.join(
                '(%s, %s, %s)' % (chars(g), chars(o), chars(n)) for g, o, n in table)]
+    out.append('/-- UriConnection.__init__ parses with `urlparse` (True: `;params` are cut off the last path segment for '
+               'schemes in `uses_params`) or `urlsplit` (False) -/')
+    out.append('def cutsParams : Bool := %s' % ('true' if p['_parser'] == 'urlparse' else 'false'))
     for key, ty in need.items():
         v = p.get(key)
         if not isinstance(v, Val):
